@@ -145,6 +145,10 @@ pub struct HeadSpec {
     /// the request is a HEAD request (the response then has no body whatever its header fields say)
     #[serde(default)]
     pub head_method: bool,
+    /// how the request is made: 0 a plain GET; 1 a POST that carried a body; 2 a GET through an http
+    /// proxy - what is reported of the response head does not depend on it
+    #[serde(default)]
+    pub request_kind: u8,
 }
 
 pub struct Built {
@@ -246,14 +250,40 @@ pub enum Obs {
     Panic(String),
 }
 
-type Req = attohttpc::PreparedRequest<attohttpc::body::Empty>;
+enum Req {
+    Plain(attohttpc::PreparedRequest<attohttpc::body::Empty>),
+    Post(attohttpc::PreparedRequest<attohttpc::body::Bytes<Vec<u8>>>),
+}
 
-fn new_request(max_headers: Option<usize>, head_method: bool) -> Req {
-    let mut rb = if head_method { attohttpc::head("http://h.test/") } else { attohttpc::get("http://h.test/") }.follow_redirects(false);
+impl Req {
+    fn send(&mut self) -> attohttpc::Result<attohttpc::Response> {
+        match self {
+            Req::Plain(p) => p.send(),
+            Req::Post(p) => p.send(),
+        }
+    }
+}
+
+fn new_request(max_headers: Option<usize>, head_method: bool, request_kind: u8) -> Req {
+    let mut rb = if head_method {
+        attohttpc::head("http://h.test/")
+    } else if request_kind == 1 {
+        attohttpc::post("http://h.test/")
+    } else {
+        attohttpc::get("http://h.test/")
+    }
+    .follow_redirects(false);
     if let Some(n) = max_headers {
         rb = rb.max_headers(n);
     }
-    rb.prepare()
+    if request_kind == 2 {
+        rb = rb.proxy_settings(attohttpc::ProxySettings::builder().http_proxy(url::Url::parse("http://proxy.test:3128").unwrap()).build());
+    }
+    if request_kind == 1 {
+        Req::Post(rb.bytes(b"hello".to_vec()).prepare())
+    } else {
+        Req::Plain(rb.prepare())
+    }
 }
 
 fn observe(req: &mut Req, wire: &Arc<Vec<u8>>, policy: Policy) -> Obs {
@@ -603,6 +633,7 @@ fn plan_for(spec: &HeadSpec, b: &Built, tier: Tier) -> Plan {
             }
         }
         "te" => Plan { offsets: all_head_offsets(b), d: 2, uniforms },
+        "status-kind" => Plan { offsets: all_head_offsets(b), d: tier.pick(1, 2), uniforms },
         // heads larger than the 8 KiB read buffer
         "size" => {
             let mult = (1..).map(|k| k * 8192).take_while(|&x| x <= b.head_len + 2);
@@ -668,6 +699,7 @@ fn spec_lists(fields: Vec<FieldSpec>) -> HeadSpec {
         max_headers: None,
         reject: false,
         head_method: false,
+                    request_kind: 0,
     }
 }
 
@@ -705,8 +737,29 @@ pub fn space() -> Vec<HeadSpec> {
                     max_headers: None,
                     reject: false,
                     head_method: false,
+                    request_kind: 0,
                 });
             }
+        }
+    }
+    // (A') the same for a request that carried a body (every 1xx, and a sample of the others) and for
+    // a request through an http proxy (proxy-ish statuses and a sample)
+    for request_kind in [1u8, 2] {
+        let mut codes: Vec<u16> = (100..=199).collect();
+        codes.extend([200, 201, 204, 205, 206, 300, 301, 304, 400, 401, 403, 404, 405, 407, 408, 411, 413, 417, 421, 426, 500, 502, 503, 504, 511, 599, 600, 999]);
+        for code in codes {
+            v.push(HeadSpec {
+                group: "status-kind".into(),
+                version: "HTTP/1.1".into(),
+                code,
+                reason: Reason::Text(b"Some Reason".to_vec()),
+                fields: vec![fld("Proxy-Authenticate", 1, b"Basic realm=\"a\"", 0), fld("proxy-authenticate", 1, b"Digest realm=\"b\"", 0), fld("a", 1, b"v", 0)],
+                body: body_for(code),
+                max_headers: None,
+                reject: false,
+                head_method: false,
+                request_kind,
+            });
         }
     }
     // (C) field count against max_headers: m-1, m accepted; m+1 rejected
@@ -743,6 +796,7 @@ pub fn space() -> Vec<HeadSpec> {
                         max_headers: Some(m),
                         reject: n > m,
                         head_method: false,
+                    request_kind: 0,
                     });
                 }
             }
@@ -806,6 +860,7 @@ pub fn space() -> Vec<HeadSpec> {
                     max_headers: None,
                     reject: false,
                     head_method,
+                    request_kind: 0,
                 });
             }
         }
@@ -819,6 +874,7 @@ pub fn space() -> Vec<HeadSpec> {
             max_headers: None,
             reject: false,
             head_method: false,
+                    request_kind: 0,
         });
     }
     // (F) a fold directly after the colon / a value ending in a blank continuation line: the LF
@@ -853,6 +909,7 @@ pub fn space() -> Vec<HeadSpec> {
                 max_headers: None,
                 reject: false,
                 head_method: false,
+                    request_kind: 0,
             });
         }
     }
@@ -885,6 +942,7 @@ pub fn space() -> Vec<HeadSpec> {
             max_headers: None,
             reject: false,
             head_method: false,
+                    request_kind: 0,
         });
     }
     // (H) a Connection field that names other fields of the same head: only Transfer-Encoding is hidden
@@ -907,6 +965,7 @@ pub fn space() -> Vec<HeadSpec> {
             max_headers: None,
             reject: false,
             head_method: false,
+                    request_kind: 0,
         });
     }
     // (B) all lists of length 3
@@ -928,6 +987,7 @@ pub fn space() -> Vec<HeadSpec> {
         max_headers: None,
         reject: false,
         head_method: false,
+                    request_kind: 0,
     };
     for lf in [false, true] {
         v.push(size_spec(vec![
@@ -1016,13 +1076,13 @@ fn run_head(spec: &HeadSpec, tier: Tier) -> HeadResult {
     let b = build(spec);
     let plan = plan_for(spec, &b, tier);
     let mut r = HeadResult::default();
-    let mut req = new_request(spec.max_headers, spec.head_method);
+    let mut req = new_request(spec.max_headers, spec.head_method, spec.request_kind);
     let mut reference: Option<(Obs, Result<String, (String, String)>)> = None;
     let exposes = !b.exp_fields.is_empty();
     for_each_policy(&plan, b.wire.len(), |idx, policy| {
         let obs = observe(&mut req, &b.wire, policy.clone());
         if matches!(obs, Obs::Panic(_)) {
-            req = new_request(spec.max_headers, spec.head_method);
+            req = new_request(spec.max_headers, spec.head_method, spec.request_kind);
         }
         r.evaluations += 1;
         let splits_head = policy.uniform.map_or(false, |u| u < b.head_len) || policy.cuts.iter().any(|&c| c < b.head_len);
@@ -1099,7 +1159,7 @@ pub fn c04(ctx: &Ctx) -> Report {
     specs.retain(|s| {
         let b = build(s);
         let mut key = b.wire.as_ref().clone();
-        key.extend_from_slice(format!("|{:?}|{}", s.max_headers.unwrap_or(100), b.head_len).as_bytes());
+        key.extend_from_slice(format!("|{:?}|{}|{}|{}", s.max_headers.unwrap_or(100), b.head_len, s.request_kind, s.head_method).as_bytes());
         seen.insert(hash128(&key))
     });
     if let Ok(g) = std::env::var("VH_ONLY") {
@@ -1209,9 +1269,9 @@ pub fn replay(v: &Value) -> i32 {
     println!("head ({} bytes): \"{}\"", b.head_len, esc(&b.wire[..b.head_len]));
     println!("body: \"{}\"  max_headers: {:?}  policy: {:?}", esc(&b.wire[b.head_len..]), spec.max_headers, policy);
     let run = || {
-        let mut req = new_request(spec.max_headers, spec.head_method);
+        let mut req = new_request(spec.max_headers, spec.head_method, spec.request_kind);
         let whole = observe(&mut req, &b.wire, Policy::default());
-        let mut req = new_request(spec.max_headers, spec.head_method);
+        let mut req = new_request(spec.max_headers, spec.head_method, spec.request_kind);
         let cut = observe(&mut req, &b.wire, policy.clone());
         (whole, cut)
     };
